@@ -101,7 +101,7 @@ func (rp *replayPlan) build(name, path string, t types.Type, term string, depth 
 			n.kind = "skip"
 			break
 		}
-		cl := "E_" + sortKey(c.sortOf(x.Elem()))
+		cl := "E_" + c.classKey(x.Elem())
 		if _, known := c.classes[cl]; !known {
 			break
 		}
